@@ -224,6 +224,9 @@ func (this *partition) validateBatchItems(items []*pb.BatchItem, withValue bool)
 			if err := this.dataset.checkDimension(&value); err != nil {
 				return err
 			}
+			if err := index.Metadata(item.GetMetadata()).Validate(); err != nil {
+				return err
+			}
 		}
 	}
 	return nil
